@@ -3,7 +3,7 @@
 From Coq Require Import ZArith List Bool Reals Lia Lra.
 From QP Require Import Cx Apply Gates Rsem.
 From QPM Require Import Transpile Inverse Pauli PauliRot PauliRotInv.
-From QPM Require Import UMInverse.
+From QPM Require Import UMInverse PolyFit.
 From QPG Require Import invtab.
 Import ListNotations.
 
@@ -108,3 +108,23 @@ Example c12_nonvacuous :
   Forall cgate_ok [mkC KRX [2]%nat [1%R]; mkC KCNOT [0; 1]%nat []; mkC KT [1]%nat []] /\
   forallb (fun k => negb (is_known_bad k)) [KRX; KCNOT; KT; KU1; KS; KSqrtY] = true.
 Proof. split; [repeat constructor; simpl; intuition (try discriminate; try lia) | vm_compute; reflexivity]. Qed.
+
+(* zero-noise extrapolation on a noiseless estimator, polynomial / Richardson extrapolation (zne.py: zne,
+   create_polynomial_extrapolate, richardson_extrapolation; utils/fitting.py: polynomial_fitting). By folding_preserves_action
+   every folded circuit has the action of the original, so an exact estimator returns the same value E at every scale factor: the
+   data are (scale factor, E). polynomial_fitting refuses the call unless there are order + 1 distinct scale factors (the guard
+   `order > len(set(x_data)) - 1`, hypothesis ds) and returns the coefficients of numpy's least-squares fit, low to high, of which
+   the extrapolation takes parameters[0]. numpy enters through its contract only (p has at most order + 1 coefficients and
+   minimises the residual sum of squares over all such lists; validated against the real function by corr_C12_fit.py): then the
+   fitted polynomial is the constant E everywhere and the value returned is exactly E - any number of scale factors in any order
+   with repetitions, any order of the polynomial. *)
+Theorem noiseless_polynomial_extrapolation_returns_the_exact_value :
+  forall (p : list R) (E : R) (order : nat) (data : list (R * R)) (ds : list R),
+  (forall xy, In xy data -> snd xy = E) ->
+  NoDup ds -> length ds = S order -> incl ds (map fst data) ->
+  (length p <= S order)%nat ->
+  (forall q, (length q <= S order)%nat -> rss p data <= rss q data) ->
+  (forall x, peval p x = E) /\ nth 0 p 0%R = E.
+Proof. exact constant_data_fit. Qed.
+Print Assumptions noiseless_polynomial_extrapolation_returns_the_exact_value.
+(* non-vacuity: PolyFit.constant_data_fit_example *)
